@@ -158,7 +158,14 @@ func runSign() {
 
 	var all []*signed
 	doSign := func(seed []byte, p vpair, msg []byte) *signed {
-		priv := sNewKey(tr, seed)
+		// the seed lives in a buffer with spare capacity that the caller overwrites after key derivation:
+		// signing is a function of the key VALUE, not of memory the caller still owns
+		sbuf := bytes.Repeat([]byte{0xCC}, 128)
+		copy(sbuf, seed)
+		priv := sNewKey(tr, sbuf[:32])
+		for i := range sbuf {
+			sbuf[i] = 0
+		}
 		cr := &countReader{}
 		results := signAll(priv, p, msg, cr)
 		hs, a, hr, rn := derive(seed, p, msg)
